@@ -116,6 +116,13 @@ impl<'a, 'tcx> Mx<'a, 'tcx> {
             ("s", J::s(shown)),
             ("ty", J::s(ty.to_string())),
         ];
+        if let Const::Val(rustc_middle::mir::ConstValue::Scalar(rustc_middle::mir::interpret::Scalar::Ptr(ptr, _)), _) = c.const_ {
+            // a reference to a static item (`&INSIGNIFICANT`): name it
+            let aid = ptr.provenance.alloc_id();
+            if let rustc_middle::mir::interpret::GlobalAlloc::Static(did) = self.tcx.global_alloc(aid) {
+                v.push(("static", J::s(def_path(self.tcx, did))));
+            }
+        }
         if let Const::Unevaluated(uv, _) = c.const_ {
             if let Some(pidx) = uv.promoted {
                 if uv.def.is_local() {
